@@ -127,9 +127,21 @@ def repeatMesh (zero : Nat → α) (pos : AttrKey) (m : MeshVal α) (ts : List (
 
 /-! ### Attribute filters (meshops/filter_attribute.go) -/
 
-/-- `FilterFloatN(m, attr, pred)`: keep the index entries whose vertex passes, then remove
-    unreferenced vertices. No topology requirement in the Go code. -/
+/-- `FilterFloatN(m, attr, pred)`: point clouds only (any other topology is rejected: filtering
+    single index entries would tear multi-index primitives apart); keep the index entries whose
+    vertex passes, then remove unreferenced vertices. -/
 def filterAttr (m : MeshVal α) (k : AttrKey) (p : α → Bool) : Option (MeshVal α) :=
+  if m.topology = .point then
+    match m.attr? k with
+    | none => none
+    | some d =>
+      let keep := fun i => match d[i]? with | some x => p x | none => false
+      some (m.setIndices (m.indices.filter keep)).removeUnreferenced
+  else none
+
+/-- the filters as they were before /repo commit fc6738f (no topology requirement); kept only to
+    state the defect that commit repaired (`Props/C02.lean: filterAttrOld_breaks_triangles`). -/
+def filterAttrOld (m : MeshVal α) (k : AttrKey) (p : α → Bool) : Option (MeshVal α) :=
   match m.attr? k with
   | none => none
   | some d =>
